@@ -278,10 +278,7 @@ fn with_source<F: TagFrame>(src: &mut Source, obs: &mut Observer) -> Result<(), 
         drive(sig, pulls, end, src, obs)
     } else {
         // the real from_iter (one-frame look-ahead) over an iterator probe
-        fn mk<F: TagFrame>(i: u64) -> F {
-            F::tag(9, i)
-        }
-        let (it, _polls, _nones) = ProbeIter::new(end as u64, false, mk::<F> as fn(u64) -> F);
+        let (it, _polls, _nones) = ProbeIter::new(9, end as u64, false, F::tag as fn(u32, u64) -> F);
         let (sig, pulls) = Counted::new(signal::from_iter(it));
         drive(sig, pulls, Some(end as u64), src, obs)
     }
